@@ -62,29 +62,31 @@ Section Exact.
 
   Lemma bits_exp : b64_exp bits_of_m = e + 1023.
   Proof.
-    unfold b64_exp, bits_of_m. pose proof man_bounds. pose proof e_bounds.
+    unfold b64_exp, bits_of_m. pose proof man_bounds as Hmb. pose proof e_bounds.
+    assert (Hsm : 0 <= man - two52 < two52) by (unfold two52, two53 in *; lia).
     rewrite Z.div_add_l by (rewrite two52_eq; lia).
-    rewrite (Z.div_small (man - two52)) by lia. rewrite Z.add_0_r.
+    rewrite (Z.div_small (man - two52)) by exact Hsm. rewrite Z.add_0_r.
     apply Z.mod_small. lia.
   Qed.
 
   Lemma bits_man : b64_man bits_of_m = man - two52.
   Proof.
-    unfold b64_man, bits_of_m. pose proof man_bounds.
+    unfold b64_man, bits_of_m. pose proof man_bounds as Hmb.
+    assert (Hsm : 0 <= man - two52 < two52) by (unfold two52, two53 in *; lia).
     rewrite Z.add_comm, Z.mod_add by (rewrite two52_eq; lia).
-    apply Z.mod_small. lia.
+    apply Z.mod_small. exact Hsm.
   Qed.
 
   Lemma bits_sign : b64_sign bits_of_m = 0.
   Proof.
     unfold b64_sign, bits_of_m. pose proof man_bounds. pose proof e_bounds.
-    apply Z.div_small. rewrite two63_eq, two52_eq in *. change (2 ^ 63) with (2048 * 2 ^ 52). nia.
+    apply Z.div_small. unfold two63, two52, two53 in *. lia.
   Qed.
 
   Lemma bits_range : 0 <= bits_of_m < two63.
   Proof.
     unfold bits_of_m. pose proof man_bounds. pose proof e_bounds.
-    rewrite two63_eq, two52_eq in *. change (2 ^ 63) with (2048 * 2 ^ 52). nia.
+    unfold two63, two52, two53 in *. lia.
   Qed.
 
   Lemma bits_finite : b64_is_finite bits_of_m = true.
@@ -135,19 +137,8 @@ Lemma b64_neg_fields x :
   0 <= x < two63 ->
   b64_sign (two63 + x) = 1 /\ b64_exp (two63 + x) = b64_exp x /\ b64_man (two63 + x) = b64_man x.
 Proof.
-  intros Hx. unfold b64_sign, b64_exp, b64_man.
-  rewrite two63_eq, two52_eq in *.
-  split; [|split].
-  - replace (2 ^ 63 + x) with (1 * 2 ^ 63 + x) by lia.
-    rewrite Z.div_add_l by lia. rewrite Z.div_small by lia. reflexivity.
-  - change (2 ^ 63) with (2048 * 2 ^ 52).
-    rewrite Z.div_add_l by lia.
-    rewrite Z.add_comm, Z.mul_comm.
-    replace (2048 * 1) with 2048 by lia.
-    rewrite <- (Z.mul_1_l 2048) at 1.
-    rewrite Z.mod_add by lia. reflexivity.
-  - change (2 ^ 63) with (2048 * 2 ^ 52).
-    rewrite Z.add_comm, Z.mod_add by lia. reflexivity.
+  intros Hx. unfold b64_sign, b64_exp, b64_man, two63, two52 in *.
+  split; [|split]; Z.div_mod_to_equations; lia.
 Qed.
 
 Theorem b64_of_Z_exact z : Z.abs z < two53 -> b64_is_int (b64_of_Z z) z.
@@ -185,6 +176,11 @@ Qed.
 (* ------------------------------------------------------------------------------------ *)
 (* the conversion table *)
 
+Ltac plcases s :=
+  unfold n_get_int, n_get_int64, n_get_float, n_get_bool, n_get_string,
+         n_set_int, n_set_int64, n_set_float, n_set_bool, n_set_string, s_ty in *;
+  destruct (s_pl s) eqn:?; simpl in *.
+
 (* int <-> int64: interchangeable exactly when the value fits *)
 Lemma get_int64_of_int auto s z : s_pl s = PInt z -> n_get_int64 auto s = GOk z.
 Proof. unfold n_get_int64. intros ->. reflexivity. Qed.
@@ -197,6 +193,11 @@ Lemma set_int64_on_int auto s z v :
   s_pl s = PInt z ->
   n_set_int64 auto s v = (if in_int v then SOk (set_pl s (PInt v)) else SFail).
 Proof. unfold n_set_int64. intros ->. reflexivity. Qed.
+
+(* an int always fits a 64-bit setting *)
+Lemma set_int_on_int64 auto s z v :
+  s_pl s = PInt64 z -> n_set_int auto s v = SOk (set_pl s (PInt64 v)).
+Proof. unfold n_set_int. intros ->. reflexivity. Qed.
 
 (* without auto-conversion floats and integers never convert *)
 Lemma no_autoconvert_get s :
@@ -226,75 +227,6 @@ Proof.
   apply b64_of_Z_exact. apply in_int_abs. assumption.
 Qed.
 
-(* booleans and strings never convert *)
-Definition is_bool_or_string (s : setting) : Prop :=
-  match s_pl s with PBool _ | PStr _ => True | _ => False end.
-
-Lemma bool_string_get auto s :
-  is_bool_or_string s ->
-  n_get_int auto s = GFail /\ n_get_int64 auto s = GFail /\ n_get_float auto s = GFail /\
-  (forall z, s_pl s = PBool z -> n_get_string s = None) /\
-  (forall o, s_pl s = PStr o -> n_get_bool s = 0).
-Proof.
-  unfold is_bool_or_string, n_get_int, n_get_int64, n_get_float, n_get_string, n_get_bool.
-  destruct (s_pl s); try tauto; intros _; repeat split; intros; try discriminate; reflexivity.
-Qed.
-
-Lemma bool_string_set auto s v o :
-  is_bool_or_string s ->
-  n_set_int auto s v = SFail /\ n_set_int64 auto s v = SFail /\ n_set_float auto s v = SFail /\
-  (forall z, s_pl s = PBool z -> n_set_string s o = SFail) /\
-  (forall x, s_pl s = PStr x -> n_set_bool s v = SFail).
-Proof.
-  unfold is_bool_or_string, n_set_int, n_set_int64, n_set_float, n_set_string, n_set_bool.
-  destruct (s_pl s); try tauto; intros _; repeat split; intros; try discriminate; reflexivity.
-Qed.
-
-(* numbers never read as / assign to booleans and strings *)
-Lemma number_not_bool_string s v o :
-  (match s_pl s with PInt _ | PInt64 _ | PFloat _ => True | _ => False end) ->
-  n_get_bool s = 0 /\ n_get_string s = None /\ n_set_bool s v = SFail /\ n_set_string s o = SFail.
-Proof.
-  unfold n_get_bool, n_get_string, n_set_bool, n_set_string.
-  destruct (s_pl s); try tauto; intros _; auto.
-Qed.
-
-(* a value that was stored is the value read back (same type) *)
-Lemma set_get_int auto s s' v : n_set_int auto s v = SOk s' -> s_ty s <> TFloat -> n_get_int auto s' = GOk v.
-Proof.
-  unfold n_set_int, n_get_int, s_ty. destruct (s_pl s); try discriminate; intros [= <-] Hn;
-    rewrite ?s_pl_set_pl; try reflexivity. destruct auto; try discriminate. exfalso; apply Hn; reflexivity.
-Qed.
-
-Lemma set_get_int64 auto s s' v :
-  n_set_int64 auto s v = SOk s' -> s_ty s <> TFloat -> n_get_int64 auto s' = GOk v.
-Proof.
-  unfold n_set_int64, n_get_int64, s_ty. destruct (s_pl s); try discriminate.
-  - intros [= <-] _. rewrite s_pl_set_pl. reflexivity.
-  - destruct (in_int v); try discriminate. intros [= <-] _. rewrite s_pl_set_pl. reflexivity.
-  - intros [= <-] _. rewrite s_pl_set_pl. reflexivity.
-  - destruct auto; try discriminate. intros _ Hn. exfalso; apply Hn; reflexivity.
-Qed.
-
-Lemma set_get_float auto s s' b :
-  n_set_float auto s b = SOk s' -> (s_ty s = TFloat \/ s_ty s = TNone) -> n_get_float auto s' = GOk b.
-Proof.
-  unfold n_set_float, n_get_float, s_ty. destruct (s_pl s); try discriminate;
-    intros H [Ht|Ht]; try discriminate; inv H; rewrite s_pl_set_pl; reflexivity.
-Qed.
-
-Lemma set_get_bool s s' v : n_set_bool s v = SOk s' -> n_get_bool s' = v.
-Proof.
-  unfold n_set_bool, n_get_bool. destruct (s_pl s); try discriminate; intros [= <-];
-    rewrite s_pl_set_pl; reflexivity.
-Qed.
-
-Lemma set_get_string s s' o : n_set_string s o = SOk s' -> n_get_string s' = o.
-Proof.
-  unfold n_set_string, n_get_string. destruct (s_pl s); try discriminate; intros [= <-];
-    rewrite s_pl_set_pl; reflexivity.
-Qed.
-
 (* with auto-conversion, a 32-bit integer stored into a float setting is stored exactly *)
 Lemma set_int_on_float_exact s b v :
   s_pl s = PFloat b -> in_int v = true ->
@@ -304,20 +236,111 @@ Proof.
   rewrite s_pl_set_pl. split; [reflexivity|]. apply b64_of_Z_exact. apply in_int_abs. assumption.
 Qed.
 
-(* an int always fits a 64-bit setting *)
-Lemma set_int_on_int64 auto s z v :
-  s_pl s = PInt64 z -> n_set_int auto s v = SOk (set_pl s (PInt64 v)).
-Proof. unfold n_set_int. intros ->. reflexivity. Qed.
+(* booleans and strings never convert *)
+Definition is_bool_or_string (s : setting) : Prop :=
+  match s_pl s with PBool _ | PStr _ => True | _ => False end.
+Definition is_number (s : setting) : Prop :=
+  match s_pl s with PInt _ | PInt64 _ | PFloat _ => True | _ => False end.
 
-(* a failing setter reports SFail: there is no partially updated setting (type and value unchanged
-   is the step-level statement fail_atomic); a succeeding one keeps the type unless it was NONE *)
+Lemma bool_string_get auto s :
+  is_bool_or_string s ->
+  n_get_int auto s = GFail /\ n_get_int64 auto s = GFail /\ n_get_float auto s = GFail /\
+  (forall z, s_pl s = PBool z -> n_get_string s = None) /\
+  (forall o, s_pl s = PStr o -> n_get_bool s = 0).
+Proof.
+  unfold is_bool_or_string. plcases s; try tauto; intros _; repeat split; intros; try discriminate; reflexivity.
+Qed.
+
+Lemma bool_string_set auto s v o :
+  is_bool_or_string s ->
+  n_set_int auto s v = SFail /\ n_set_int64 auto s v = SFail /\ n_set_float auto s v = SFail /\
+  (forall z, s_pl s = PBool z -> n_set_string s o = SFail) /\
+  (forall x, s_pl s = PStr x -> n_set_bool s v = SFail).
+Proof.
+  unfold is_bool_or_string. plcases s; try tauto; intros _; repeat split; intros; try discriminate; reflexivity.
+Qed.
+
+(* numbers never read as / assign to booleans and strings *)
+Lemma number_not_bool_string s v o :
+  is_number s ->
+  n_get_bool s = 0 /\ n_get_string s = None /\ n_set_bool s v = SFail /\ n_set_string s o = SFail.
+Proof. unfold is_number. plcases s; try tauto; intros _; auto. Qed.
+
+(* a value that was stored is the value read back through the accessor of the same kind.  For the
+   integer setters on a FLOAT setting the stored value is the (rounded) double; the read-back is then
+   characterised by set_int_on_float_exact. *)
+Lemma set_get_int auto s s' v :
+  n_set_int auto s v = SOk s' -> s_ty s <> TFloat -> in_int v = true -> n_get_int auto s' = GOk v.
+Proof.
+  intros H Hn Hv. plcases s; try discriminate.
+  - inv H. rewrite s_pl_set_pl. reflexivity.
+  - inv H. rewrite s_pl_set_pl. reflexivity.
+  - inv H. rewrite s_pl_set_pl. rewrite Hv. reflexivity.
+  - exfalso; apply Hn; reflexivity.
+Qed.
+
+Lemma set_get_int64 auto s s' v :
+  n_set_int64 auto s v = SOk s' -> s_ty s <> TFloat -> n_get_int64 auto s' = GOk v.
+Proof.
+  intros H Hn. plcases s; try discriminate.
+  - inv H. rewrite s_pl_set_pl. reflexivity.
+  - destruct (in_int v); try discriminate. inv H. rewrite s_pl_set_pl. reflexivity.
+  - inv H. rewrite s_pl_set_pl. reflexivity.
+  - exfalso; apply Hn; reflexivity.
+Qed.
+
+Lemma set_get_float auto s s' b :
+  n_set_float auto s b = SOk s' -> (s_ty s = TFloat \/ s_ty s = TNone) -> n_get_float auto s' = GOk b.
+Proof.
+  intros H Ht. plcases s; try discriminate; destruct Ht as [Ht|Ht]; try discriminate;
+    inv H; rewrite s_pl_set_pl; reflexivity.
+Qed.
+
+Lemma set_get_bool s s' v : n_set_bool s v = SOk s' -> n_get_bool s' = v.
+Proof. intros H. plcases s; try discriminate; inv H; rewrite s_pl_set_pl; reflexivity. Qed.
+
+Lemma set_get_string s s' o : n_set_string s o = SOk s' -> n_get_string s' = o.
+Proof. intros H. plcases s; try discriminate; inv H; rewrite s_pl_set_pl; reflexivity. Qed.
+
+(* the complete success table of the setters: which stored type accepts which kind *)
+Definition set_accepts (auto : bool) (stored : ty) (k : sk) (v : Z) : bool :=
+  match stored, k with
+  | TNone, _ => true
+  | TInt, KInt | TInt64, KInt64 | TFloat, KFloat | TBool, KBool | TString, KString => true
+  | TInt64, KInt => true
+  | TInt, KInt64 => in_int v
+  | TFloat, (KInt | KInt64) => auto
+  | (TInt | TInt64), KFloat => auto
+  | _, _ => false
+  end.
+
+Lemma setter_table c k a s :
+  match setter c k a s with
+  | SOk _ | SUnspec => set_accepts (auto c) (s_ty s) k (arg_z a) = true
+  | SFail => set_accepts (auto c) (s_ty s) k (arg_z a) = false
+  end.
+Proof.
+  destruct k; simpl; plcases s; try reflexivity; repeat destr_match; try reflexivity; try congruence.
+Qed.
+
+(* a succeeding setter keeps the type unless it was NONE *)
 Lemma setter_keeps_type c k v s s' :
   setter c k v s = SOk s' -> s_ty s' = s_ty s \/ (s_ty s = TNone /\ s_ty s' = sk_ty k).
 Proof.
-  destruct k; simpl; unfold n_set_int, n_set_int64, n_set_float, n_set_bool, n_set_string, s_ty;
-    destruct (s_pl s); try discriminate; repeat destr_match; try discriminate;
-    intros [= <-]; rewrite s_pl_set_pl; simpl; auto.
+  destruct k; simpl; intros H; plcases s; try discriminate; repeat destr_match; try discriminate;
+    inv H; rewrite s_pl_set_pl; simpl; auto.
 Qed.
+
+(* the complete success table of the numeric getters *)
+Definition get_accepts (auto : bool) (s : setting) (k : sk) : bool :=
+  match s_pl s, k with
+  | PInt _, (KInt | KInt64) | PInt64 _, KInt64 | PFloat _, KFloat => true
+  | PInt64 z, KInt => in_int z
+  | PFloat _, (KInt | KInt64) => auto
+  | (PInt _ | PInt64 _), KFloat => auto
+  | PBool _, KBool | PStr _, KString => true
+  | _, _ => false
+  end.
 
 (* ------------------------------------------------------------------------------------ *)
 (* all accessor families agree on the same setting *)
@@ -331,19 +354,39 @@ Lemma typed_look_numeric c m :
   typed_look c KFloat (Some m) = look_of_get (n_get_float (auto c) m) RFloat.
 Proof. simpl. repeat split; destr_match; reflexivity. Qed.
 
+(* a lookup fails exactly when the conversion table says so, and then has no output *)
+Lemma typed_look_table c k m :
+  match typed_look c k (Some m) with
+  | RLook ok out => ok = (if get_accepts (auto c) m k then 1 else 0) /\
+                    (ok = 0 -> out = None)
+  | RUnspec => get_accepts (auto c) m k = true
+  | _ => False
+  end.
+Proof.
+  destruct k; simpl; unfold get_accepts; plcases m; repeat destr_match;
+    try (split; [reflexivity|intros; try reflexivity; discriminate]); try reflexivity; try discriminate;
+    match goal with H : RLook _ _ = RLook _ _ |- _ => inv H end;
+    (split; [reflexivity|intros; try reflexivity; discriminate]).
+Qed.
+
+Definition zero_ret (k : sk) : ret :=
+  match k with KInt | KInt64 | KBool => RInt 0 | KFloat => RFloat 0 | KString => RStr None end.
+
 (* direct getter = the looked-up value, or 0 / 0.0 / NULL when the lookup fails *)
 Lemma getter_vs_look c k m :
   match typed_look c k (Some m) with
-  | RLook 1 (Some v) => getter c k m = v
-  | RLook _ _ => getter c k m = match k with
-                                | KInt | KInt64 | KBool => RInt 0
-                                | KFloat => RFloat 0
-                                | KString => RStr None end
+  | RLook _ (Some v) => getter c k m = v
+  | RLook _ None => getter c k m = zero_ret k
   | r => getter c k m = r
   end.
 Proof.
-  destruct k; simpl; unfold n_get_bool, n_get_string; repeat destr_match; try reflexivity; try discriminate.
+  destruct k; simpl; unfold n_get_bool, n_get_string; repeat destr_match; try reflexivity; try discriminate;
+    match goal with H : RLook _ _ = RLook _ _ |- _ => inv H end; try reflexivity; try discriminate;
+    try match goal with H : Some _ = Some _ |- _ => inv H end; try reflexivity; try discriminate.
 Qed.
+
+Lemma typed_look_none c k : typed_look c k None = RLook 0 None.
+Proof. reflexivity. Qed.
 
 (* by-name, by-path and by-index accessors apply the same function to the setting they select *)
 Lemma step_mlook c k p name s :
@@ -368,3 +411,32 @@ Proof. intros H. simpl. unfold at_node. rewrite H. reflexivity. Qed.
 
 Lemma elem_getter_some c k e : elem_getter c k (Some e) = getter c k e.
 Proof. reflexivity. Qed.
+
+Lemma elem_getter_none c k : elem_getter c k None = zero_ret k.
+Proof. destruct k; reflexivity. Qed.
+
+(* the direct setter and the element setter run the same node-level function *)
+Lemma step_set c k p v s :
+  get_at p (c_root c) = Some s ->
+  api_step c (OSet k p v) =
+  match setter c k v s with
+  | SOk s' => (set_root c (upd_at p (fun _ => s') (c_root c)), RInt 1, [])
+  | SFail => (c, RInt 0, [])
+  | SUnspec => (c, RUnspec, [])
+  end.
+Proof. intros H. simpl. unfold at_node. rewrite H. destruct (setter c k v s); reflexivity. Qed.
+
+Lemma set_elem_existing t st agg idx i e :
+  (s_ty agg = TArray \/ s_ty agg = TList) -> 0 <= idx -> get_elem agg idx = Some i ->
+  nth_error (s_kids agg) i = Some e ->
+  n_set_elem t st agg idx =
+  match st e with
+  | SOk e' => EOk (set_kids agg (list_upd i (fun _ => e') (s_kids agg))) i
+  | SFail => EFail
+  | SUnspec => EUnspec
+  end.
+Proof.
+  intros Ht Hi Hg Hn. unfold n_set_elem.
+  assert (idx <? 0 = false) as -> by (apply Z.ltb_ge; lia).
+  rewrite Hg, Hn. destruct Ht as [-> | ->]; reflexivity.
+Qed.
